@@ -77,38 +77,32 @@ func (o *oracle) loadersFor(key []string) []string {
 	return ls
 }
 
-// derived path of a key under a loader; "" when the loader cannot hold the name
-func derived(ld string, key []string) string {
-	if ld == "g" {
-		return "env/types/" + strings.Join(key, "/") + ".pp"
+// loaderOf: which file loader indexes the path ("" = none: not below a types directory, or another extension)
+func loaderOf(path string) string {
+	segs := strings.Split(path, "/")
+	if !strings.HasSuffix(path, ".pp") {
+		return ""
 	}
-	if !moduleRelative(ld) {
-		// a module named `environment` is treated as global by the smart path but still filters on the first segment
-		return "modules/" + ld + "/types/" + strings.Join(key, "/") + ".pp"
+	switch {
+	case len(segs) >= 3 && segs[0] == "env" && segs[1] == "types":
+		return "g"
+	case len(segs) >= 4 && segs[0] == "modules" && segs[2] == "types":
+		return segs[1]
 	}
-	if len(key) == 1 {
-		return "modules/" + ld + "/types/init_typeset.pp"
-	}
-	return "modules/" + ld + "/types/" + strings.Join(key[1:], "/") + ".pp"
+	return ""
 }
 
-func reservedKey(ld string, key []string) bool {
-	return ld != "g" && moduleRelative(ld) && len(key) == 2 && (key[1] == "init" || key[1] == "init_typeset")
-}
-
-// candidates of a key in walk order per loader
+// candidates of a key: the files whose path implies it, parent loader first, in walk order per loader.  (The derived
+// path of the property read backwards: path → lower-cased name; the top-level files `init.pp` and `init_typeset.pp` of a
+// module — spelled exactly so — are reserved: the latter stands for the module's own name.)
 func (o *oracle) candidates(key []string) []cand {
 	var out []cand
 	for _, ld := range o.loadersFor(key) {
-		if reservedKey(ld, key) {
-			continue
-		}
-		want := derived(ld, key)
 		var cs []cand
 		for i := range o.s.files {
 			f := &o.s.files[i]
 			p := o.paths[f]
-			if strings.ToLower(p) == want && strings.HasSuffix(p, ".pp") {
+			if loaderOf(p) == ld && keyEq(o.impliedKey(p), key) {
 				cs = append(cs, cand{f, p, ld})
 			}
 		}
@@ -140,31 +134,59 @@ func (b body) defines(key []string) bool {
 	return false
 }
 
-// providers of a key through type sets: candidate files of a proper prefix TS that define the type set TS listing the rest
+// providers of a key through type sets: the *effective* candidate (parent loader first, then walk order) of the prefix TS,
+// when it defines the type set TS and lists the last segment
 func (o *oracle) providers(key []string) []cand {
-	var out []cand
 	if len(key) < 2 {
 		return nil
 	}
 	ts := key[:len(key)-1]
 	last := key[len(key)-1]
-	for _, c := range o.candidates(ts) {
-		if c.f.body.kind == "typeset" && c.f.body.defines(ts) {
-			for _, t := range c.f.body.types {
-				if strings.ToLower(t) == last {
-					out = append(out, c)
+	cs := o.candidates(ts)
+	if len(cs) == 0 {
+		return nil
+	}
+	c := cs[0]
+	if c.f.body.kind == "typeset" && c.f.body.defines(ts) {
+		for _, t := range c.f.body.types {
+			if strings.ToLower(t) == last {
+				return []cand{c}
+			}
+		}
+	}
+	return nil
+}
+
+// ambiguous: the key has two definition sources that do not shadow each other cleanly — files of two different loaders,
+// or a file and a member of some type set (of any candidate of the prefix)
+func (o *oracle) ambiguous(key []string) bool {
+	lds := map[string]bool{}
+	for _, c := range o.candidates(key) {
+		lds[c.loader] = true
+	}
+	n := len(lds)
+	if len(key) >= 2 {
+		ts := key[:len(key)-1]
+		last := key[len(key)-1]
+		for _, c := range o.candidates(ts) {
+			if c.f.body.kind == "typeset" && c.f.body.defines(ts) {
+				for _, t := range c.f.body.types {
+					if strings.ToLower(t) == last {
+						n++
+					}
 				}
 			}
 		}
 	}
-	return out
+	return n >= 2
 }
 
 // closure: every file the search for `key` may legitimately touch: own candidates, the candidates of every ancestor
 // (parent type-set search), and — for every type set among them — the files on the routes of its members
-func (o *oracle) closure(key []string) map[string]*file {
+func (o *oracle) closure(key []string) (map[string]*file, [][]string) {
 	files := map[string]*file{}
 	seen := map[string]bool{}
+	var keys [][]string
 	var visit func(k []string)
 	visit = func(k []string) {
 		id := strings.Join(k, "::")
@@ -172,6 +194,7 @@ func (o *oracle) closure(key []string) map[string]*file {
 			return
 		}
 		seen[id] = true
+		keys = append(keys, k)
 		for _, c := range o.candidates(k) {
 			files[c.path] = c.f
 			if c.f.body.kind == "typeset" {
@@ -184,7 +207,7 @@ func (o *oracle) closure(key []string) map[string]*file {
 		visit(k[:len(k)-1])
 	}
 	visit(key)
-	return files
+	return files, keys
 }
 
 // defect of a file with respect to the name its path implies: the issue code a load of it must report ("" = none)
@@ -204,24 +227,30 @@ func (o *oracle) defect(f *file, path string) (code string, line int) {
 	return "", 0
 }
 
-// the key a path implies (which names address it); nil when the path is not below a types directory
+// the key a path implies (which name addresses it); nil when no name does
 func (o *oracle) impliedKey(path string) []string {
-	segs := strings.Split(strings.ToLower(strings.TrimSuffix(path, ".pp")), "/")
-	switch {
-	case len(segs) >= 3 && segs[0] == "env" && segs[1] == "types":
-		return segs[2:]
-	case len(segs) >= 4 && segs[0] == "modules" && segs[2] == "types":
-		m := segs[1]
-		rest := segs[3:]
-		if !moduleRelative(m) {
-			return rest
-		}
-		if len(rest) == 1 && rest[0] == "init_typeset" {
-			return []string{m}
-		}
-		return append([]string{m}, rest...)
+	ld := loaderOf(path)
+	if ld == "" {
+		return nil
 	}
-	return nil
+	raw := strings.Split(strings.TrimSuffix(path, ".pp"), "/")
+	segs := lowerSegs(raw)
+	if ld == "g" {
+		return segs[2:]
+	}
+	rest := segs[3:]
+	if !moduleRelative(ld) {
+		return rest
+	}
+	if len(rest) == 1 {
+		switch raw[3] {
+		case "init_typeset":
+			return []string{ld}
+		case "init":
+			return nil
+		}
+	}
+	return append([]string{ld}, rest...)
 }
 
 var validPartRx = regexp.MustCompile(`\A[A-Za-z][0-9A-Za-z_]*\z`)
@@ -291,7 +320,7 @@ func judge(s spec, outs []outcome, total map[string]int, out string) core.Result
 		}
 		cands := o.candidates(key)
 		provs := o.providers(key)
-		clos := o.closure(key)
+		clos, closKeys := o.closure(key)
 		var good []cand
 		for _, c := range cands {
 			if c.f.body.defines(key) {
@@ -365,14 +394,11 @@ func judge(s spec, outs []outcome, total map[string]int, out string) core.Result
 			case oc.code == "PCORE_ATTEMPT_TO_REDEFINE_TYPE":
 				// the same name defined below the global loader and below a module, loaded through the dependency loader
 				dup := dupAcross
-				for p := range clos {
-					_ = p
-				}
-				if !dup {
-					dup = o.dupInClosure(clos)
+				for _, k := range closKeys {
+					dup = dup || o.ambiguous(k)
 				}
 				if dup {
-					note("duplicate-redefine", fmt.Sprintf("%s: a name defined both below the global loader and below a module is reported as a redefinition", l.name))
+					note("duplicate-redefine", fmt.Sprintf("%s: a name with two definitions (files below two loaders, or a file and a type-set member) is reported as a redefinition", l.name))
 				} else {
 					note("error-not-located", fmt.Sprintf("%s: redefinition reported without a duplicate definition", l.name))
 				}
@@ -411,23 +437,6 @@ func judge(s spec, outs []outcome, total map[string]int, out string) core.Result
 		return *failure
 	}
 	return core.Result{Out: out, Pred: "ok", NonTrivial: nt, Tags: tagList(tags)}
-}
-
-// dupInClosure: two files of different loaders imply the same key
-func (o *oracle) dupInClosure(clos map[string]*file) bool {
-	seen := map[string]string{}
-	for p := range clos {
-		k := strings.Join(o.impliedKey(p), "::")
-		ld := strings.SplitN(p, "/", 3)[0] + "/" + strings.SplitN(p, "/", 3)[1]
-		if strings.HasPrefix(p, "env/") {
-			ld = "env"
-		}
-		if prev, ok := seen[k]; ok && prev != ld {
-			return true
-		}
-		seen[k] = ld
-	}
-	return false
 }
 
 func tagList(m map[string]bool) []string {
